@@ -228,6 +228,16 @@ def run(R):
                 "self.last_task is replaced only after the previous task was found computed",
                 "self.last_task is overwritten before the computed check: when the check fails (RuntimeError) the pending task is already forgotten and a "
                 "second premature advance goes through", scfg.fmt_path(p) if p else None)
+    # ... and nowhere else: a method that clears the remembered task without that check (a fresh __iter__, a reset) lets the generator
+    # be advanced past a task that was handed out and never computed - no RuntimeError, and the body receives None for its await
+    gen_cls = send.cls
+    for m in gen_cls.methods.values():
+        if m is send or m.name == "__init__":
+            continue
+        for st in kit.store_nodes(m, "last_task"):
+            R.violation("C17.ADVANCE-GUARD", "%s:forget:%s" % (m.qualname, q.stmt_key(st.ast)[:40]), R.site(m, st.ast),
+                        "%s overwrites self.last_task outside the advance check of %s: a task that was returned and not computed is forgotten, and the next "
+                        "advance (a new for loop, take_first, list_of_generator) goes through without the RuntimeError" % (m.qualname, send.name))
     # a new task is remembered
     keep = [st for st in stores if isinstance(st.ast, ast.Assign) and not q.is_none(st.ast.value) and not isinstance(st.ast.value, ast.Tuple)]
     R.check(bool(keep), "C17.ADVANCE-GUARD", send.qualname + ":remember", R.site(send), "the task returned to the caller is remembered in self.last_task",
